@@ -104,4 +104,5 @@ type TraceSet struct {
 	Execs    int      `json:"execs"`
 	Capped   bool     `json:"capped,omitempty"`
 	Race     bool     `json:"race,omitempty"`
+	POR      bool     `json:"por,omitempty"` // one representative interleaving per Mazurkiewicz trace
 }
